@@ -198,32 +198,44 @@ def liveLoop {σ : Type} (lst : σ → List Nat) (body : σ → Nat → σ × XO
       | (t1, .ok) => liveLoop lst body fuel (i + 1) t1
       | r => r
 
-/-- `mine = obj.clone(); mine._merged = obj; dest.append(mine)` (`markMerged`: Sections only,
-    the attribute plays no role on a Property). -/
-def cloneAppend (O : Oracle) (fuel : Nat) (t : X) (dest obj : Nat) (markMerged : Bool) : X × XOut :=
+/-- `self._merged is not None and self.can_be_merged`: the link of the Section is resolved (no
+    `include` is set anywhere). -/
+def X.resolved (s : X) (x : Nat) : Bool := (s.merged x).isSome && s.link x
+
+/-- `mine = obj.clone(); mine._merged = obj if record else None; dest.append(mine)`
+    (`mark = none`: a Property, on which the attribute plays no role; `some record` a Section). -/
+def X.markCopy (t : X) (c obj : Nat) : Option Bool → X
+  | some record => t.setMerged c (if record then some obj else none)
+  | none => t
+
+def cloneAppend (O : Oracle) (fuel : Nat) (t : X) (dest obj : Nat) (mark : Option Bool) : X × XOut :=
   match cloneAux O fuel t obj true false with
-  | (t1, c, .ok) =>
-    (if markMerged then t1.setMerged c (some obj) else t1).prim (.append dest c)
+  | (t1, c, .ok) => (t1.markCopy c obj mark).prim (.append dest c)
   | (t1, _, o) => (t1, o)
 
-/-- Body of the loop of `merge` over the child Sections of the source. -/
-def mergeSecBody (O : Oracle) (fuel : Nat) (rec : X → Nat → Nat → X × XOut) (dest : Nat)
-    (t : X) (obj : Nat) : X × XOut :=
+/-- Body of the loop of `_merge` over the child Sections of the source. A child the destination
+    has already is merged through the public `merge` when the merge is recorded - which does not
+    record for a child whose own link is resolved - and through `_merge(obj, strict, False)`
+    otherwise. -/
+def mergeSecBody (O : Oracle) (fuel : Nat) (rec : X → Bool → Nat → Nat → X × XOut) (record : Bool)
+    (dest : Nat) (t : X) (obj : Nat) : X × XOut :=
   match containsS O t dest obj with
-  | some mine => rec t mine obj                        -- `mine.merge(obj, strict)`
-  | none => cloneAppend O fuel t dest obj true
+  | some mine => rec t (record && !t.resolved mine) mine obj
+  | none => cloneAppend O fuel t dest obj (some record)
 
 /-- Body of the loop of `merge` over the child Properties of the source. -/
 def mergePropBody (O : Oracle) (fuel : Nat) (dest : Nat) (t : X) (obj : Nat) : X × XOut :=
   match containsP t dest obj with
   | some mine =>                                       -- `Property.merge`: no structure
     if O.propOk (t.orig mine) (t.orig obj) then (t, .ok) else (t, .raised .valueError)
-  | none => cloneAppend O fuel t dest obj false
+  | none => cloneAppend O fuel t dest obj none
 
-/-- `dest.merge(src, strict)`; strictness is part of the oracle (`secOk`, `propOk`). -/
-def mergeAux (O : Oracle) : Nat → X → Nat → Nat → X × XOut
-  | 0, s, _, _ => (s, .fuel)
-  | fuel + 1, s, dest, src =>
+/-- `dest._merge(src, strict, record)`; strictness is part of the oracle (`secOk`, `propOk`).
+    `record = false` (fix dccf4ba: an explicit merge into a Section whose link is resolved): the
+    merge is carried out but leaves no trace in `_merged`, here and below. -/
+def mergeAux (O : Oracle) : Nat → X → Bool → Nat → Nat → X × XOut
+  | 0, s, _, _, _ => (s, .fuel)
+  | fuel + 1, s, record, dest, src =>
     match mergeCheck O fuel s dest src with
     | none => (s, .fuel)
     | some false => (s, .raised .valueError)
@@ -235,12 +247,19 @@ def mergeAux (O : Oracle) : Nat → X → Nat → Nat → X × XOut
       | some true =>
       -- (definition / reference are taken over here: no structure)
       match liveLoop (fun t => (t.h.node src).secs)
-          (mergeSecBody O fuel (mergeAux O fuel) dest) fuel 0 s with
+          (mergeSecBody O fuel (mergeAux O fuel) record dest) fuel 0 s with
       | (s1, .ok) =>
         match liveLoop (fun t => (t.h.node src).props) (mergePropBody O fuel dest) fuel 0 s1 with
-        | (s2, .ok) => (s2.setMerged dest (some src), .ok)
+        | (s2, .ok) =>
+          -- `if record: self._merged = section`
+          (if record then s2.setMerged dest (some src) else s2, .ok)
         | r => r
       | r => r
+
+/-- `dest.merge(src, strict)`, the public method: a Section whose link is resolved stays merged
+    with the Section it refers to, what is merged into it on top is not recorded. -/
+def mergePub (O : Oracle) (fuel : Nat) (s : X) (dest src : Nat) : X × XOut :=
+  mergeAux O fuel s (!s.resolved dest) dest src
 
 /-! ### unmerge / clean -/
 
@@ -323,8 +342,9 @@ def cleanIfLinked (O : Oracle) (fuel : Nat) (s : X) (x : Nat) : X × XOut :=
 /-- `self.merge()` in the `except` branch of the link setter (fix 06cfd75): the link the Section
     had before is assigned once more - `self.link = self._link`: the path is looked up again
     (`O.oldLink x`), the Section is cleaned (`_link` is not None) and the previous target merged.
-    Were *that* merge refused too, its `except` branch would assign the same link again, and so on
-    without end (RecursionError in the implementation; the budget runs out here). -/
+    Were *that* merge refused too, its `except` branch would assign the same link again only if
+    the link was resolved when this assignment began (fix 592a7e3: `was_resolved`); before that
+    fix it did so whenever a link was stored, without end (`relinkLegacy`). -/
 def relinkAux (O : Oracle) : Nat → X → Nat → X × XOut
   | 0, s, _ => (s, .fuel)
   | fuel + 1, s, x =>
@@ -333,15 +353,43 @@ def relinkAux (O : Oracle) : Nat → X → Nat → X × XOut
     | some t0 =>
       match cleanIfLinked O fuel s x with
       | (s1, .ok) =>
-        match mergeAux O fuel s1 x t0 with
+        match mergeAux O fuel s1 true x t0 with
         | (s2, .ok) => (s2, .ok)                 -- `self._link = new_value` (the value it has)
         | (s2, .fuel) => (s2, .fuel)
-        | (s2, _) => relinkAux O fuel s2 x       -- `if self._link is not None: self.merge()`
+        | (s2, out) =>
+          -- `except Exception: if was_resolved: self.merge(); raise`, where
+          -- `was_resolved = self._link is not None and self._merged is not None` was noted
+          -- before the `clean()`
+          if s.resolved x then
+            match relinkAux O fuel s2 x with
+            | (s3, .ok) => (s3, out)
+            | r => r
+          else (s2, out)
+      | r => r
+
+/-- The `except` branch as it was between fix 06cfd75 and fix 592a7e3
+    (`if self._link is not None: self.merge()`): a stored link is assigned again whether or not it
+    had been resolved. Kept as the witness of the former finding
+    C03/refused-link-reresolved-without-end (`C03.legacy_relink_runs_out_of_budget`). -/
+def relinkLegacy (O : Oracle) : Nat → X → Nat → X × XOut
+  | 0, s, _ => (s, .fuel)
+  | fuel + 1, s, x =>
+    match O.oldLink x with
+    | Option.none => (s, .raised .valueError)
+    | some t0 =>
+      match cleanIfLinked O fuel s x with
+      | (s1, .ok) =>
+        match mergeAux O fuel s1 true x t0 with
+        | (s2, .ok) => (s2, .ok)
+        | (s2, .fuel) => (s2, .fuel)
+        | (s2, _) => relinkLegacy O fuel s2 x
       | r => r
 
 /-- `x.link = value` (no `include` is set anywhere). The new link is stored only after the merge
     of the referenced Section has succeeded; when the merge is refused, a link the Section had
-    before (unresolved by the `clean()` above) is resolved again and the exception raised. -/
+    before and that was resolved (unresolved by the `clean()` above) is resolved again and the
+    exception raised; a link that was only stored stays stored. The setter resolves the reference
+    through `_merge(new_section, False, True)`: always recorded. -/
 def setLinkAux (O : Oracle) (fuel : Nat) (s : X) (x : Nat) (v : LinkVal) : X × XOut :=
   match (s.h.node x).parent with
   | Option.none =>
@@ -355,12 +403,14 @@ def setLinkAux (O : Oracle) (fuel : Nat) (s : X) (x : Nat) (v : LinkVal) : X × 
     | .path (some t) =>
       match cleanIfLinked O fuel s x with
       | (s1, .ok) =>
-        match mergeAux O fuel s1 x t with
+        match mergeAux O fuel s1 true x t with
         | (s2, .ok) => (s2.setLink x true, .ok)
         | (s2, .fuel) => (s2, .fuel)
         | (s2, out) =>
-          -- `except Exception: if self._link is not None: self.merge(); raise`
-          if s2.link x then
+          -- `except Exception: if was_resolved: self.merge(); raise`, where
+          -- `was_resolved = self._link is not None and self._merged is not None` was noted
+          -- before the `clean()`
+          if s.resolved x then
             match relinkAux O fuel s2 x with
             | (s3, .ok) => (s3, out)
             | r => r
@@ -401,7 +451,7 @@ def stepX (fuel : Nat) (s0 : X) (O : Oracle) (op : XOp) : X × XOut :=
   | .merge dest src =>
     -- `merge` is a method of Sections; the source is read as a Section (`.definition`)
     if (s.h.node dest).kind ≠ .sec ∨ (s.h.node src).kind ≠ .sec then (s, .raised .attributeError)
-    else mergeAux O fuel s dest src
+    else mergePub O fuel s dest src
   | .setLink x v =>
     if (s.h.node x).kind ≠ .sec then (s, .raised .attributeError)
     else setLinkAux O fuel s x v
